@@ -327,7 +327,7 @@ pub fn run(ctx: &Ctx, st: &mut Stats) {
         return run_miri(ctx, st);
     }
     let cfgs = configs(ctx);
-    let reps = ((ctx.pick(4, 64) as f64 * ctx.scale).ceil() as u32).max(1);
+    let reps = ((ctx.pick(8, 64) as f64 * ctx.scale).ceil() as u32).max(1);
     let mut r = Rng::new(ctx.seed, 1501, ctx.shard);
     let mut n = 0u64;
     for (i, (w, d, t)) in cfgs.iter().enumerate() {
@@ -361,7 +361,7 @@ pub fn run(ctx: &Ctx, st: &mut Stats) {
         }
     }
     // hostile extra: few keys, many threads, heavy perturbation on small ranges
-    let extra = ctx.quota(200, 20_000);
+    let extra = ctx.quota(2_000, 60_000);
     for k in 0..extra {
         if st.extra.contains_key("aborted_after_deadlock") {
             break;
@@ -386,6 +386,29 @@ pub fn run(ctx: &Ctx, st: &mut Stats) {
             repeats: 2,
         };
         check(ctx, st, &c);
+        st.nontrivial_key(hash64(&format!("{:?}", (c.workers, c.days, c.threshold, c.pseed))));
+    }
+    // long injected delays (tens of ms) on small configurations: timing-based termination conditions
+    // (recv_timeout, polling collectors, "wait a bit then stop") only show when a worker is late
+    for k in 0..ctx.pick(4, 40) {
+        if st.extra.contains_key("aborted_after_deadlock") {
+            break;
+        }
+        let w = r.int(2, 5) as usize;
+        let c = Case {
+            site: site(&mut r),
+            method: r.int(1, 8) as usize,
+            default_policy: false,
+            start: d2s(from_ce(r.int(day_lo() as i64, day_hi() as i64 - 6100) as i32)),
+            days: r.int(w as i64, 3 * w as i64),
+            workers: w,
+            threshold: 0,
+            pseed: ctx.seed * 9_000_011 + ctx.shard * 100_019 + k * 31 + 1,
+            max_sleep_us: 120_000,
+            repeats: 1,
+        };
+        check(ctx, st, &c);
+        st.count("runs.with_long_injected_delays(<=120ms)");
         st.nontrivial_key(hash64(&format!("{:?}", (c.workers, c.days, c.threshold, c.pseed))));
     }
     SIGS.with(|s| {
